@@ -683,6 +683,8 @@ def _analyse_own(chk):
 
 def analyse(chk):
     _analyse_own(chk)
+    chk.guard(lambda c_: core.include_findings(c_, 'C04', files=['ciderpress/dft/xc_evaluator'], rules=['accumulate', 'cutoff-pair'],
+                                               why='evaluators share the f/df buffers: an overwrite drops earlier terms of the derivative that becomes vmat'))
     chk.guard(lambda c_: core.include_findings(c_, 'C09', files=['ciderpress/dft/plans.py', 'ciderpress/dft/lcao_nldf_generator.py', 'ciderpress/dft/lcao_interpolation.py', 'ciderpress/pyscf/sdmx.py'], rules=['cache-alias'],
                                                why='a per-spin cache entry that aliases a shared scratch buffer makes the potential of one spin channel use the intermediates of the other: vmat is no longer dE/dDM per spin'))
     chk.guard(lambda c_: core.include_findings(c_, 'C05', files=None, rules=None,
